@@ -100,6 +100,9 @@ func (h *Handler) SyncGenesisHeader(native *native.NativeService) (err error) {
 	if len(genesis.PrevValidators) != 1 {
 		return fmt.Errorf("invalid PrevValidators")
 	}
+	if genesis.Header.Number == nil || genesis.PrevValidators[0].Height == nil {
+		return fmt.Errorf("invalid genesis: header number or height of the previous validators is missing")
+	}
 	if genesis.Header.Number.Cmp(genesis.PrevValidators[0].Height) <= 0 {
 		return fmt.Errorf("invalid height orders")
 	}
